@@ -70,7 +70,8 @@ hist_prop!(C12, "C12", owned = [FlexModel, Remap], focus = Flex, steps = 30,
     applicable = |t| t.any(|x| matches!(x, Ty::FlexVec(..))),
     nontrivial = |o| o.push_pop_push || o.edited_nonlast,
     rule = format!("case = (shape containing a FlexVec: item in {{sized, FlatVec, FlatString, unsized struct, unsized enum, nested FlexVec}} x offset type in {{u8..u64, portable}}, buffer up to 600 spare bytes, history of 1..30 of push(v), push_default, pop, truncate(n) for any n incl. >= len, clear, and edits of individual items through iter_mut().nth(i)); {}; owned clauses: len()/is_empty()/iter() equal the abstract sequence, pop removes exactly the last item, truncate(n) keeps exactly min(n, len), an edit changes only the edited item, pushes succeed exactly when the reference says they fit, bytes validate and re-map after every step; non-trivial = push -> (pop | truncate | clear) -> push on the same vector, or an edit of a non-last item; distinct by (shape, initial value, buffer, history)", ORACLE),
-    assumptions = ["a push fits iff the sealing offset of the current last item is < L::MAX, a slot header fits and the reference encoder can place the item in the remaining region"]);
+    assumptions = ["a push fits iff the sealing offset of the current last item is < L::MAX, a slot header fits and the reference encoder can place the item in the remaining region"],
+    prelude = c13_wide_items);
 
 hist_prop!(C13, "C13", owned = [RefusedUnchanged, Remap], focus = Edge, steps = 14,
     quick = 200_000, thorough = 3_200_000, tape = 400,
